@@ -128,12 +128,14 @@ func raceReport() (string, string) {
 	return "data-race:" + strings.Join(fr, "<->"), txt
 }
 
-func runConc(c ConcCase, x *h.Ctx) { runConcMode(c, x, false) }
+func runConc(c ConcCase, x *h.Ctx) { runConcMode(c, x, false, nil) }
 
-func runConcRace(c ConcCase, x *h.Ctx) { runConcMode(c, x, true) }
+func runConcRace(c ConcCase, x *h.Ctx) { runConcMode(c, x, true, nil) }
 
 // raceMode: never execute eth txs (see the comment at the top of the file).
-func runConcMode(c ConcCase, x *h.Ctx, raceMode bool) {
+// sched != nil: the harness owns the order in which the submitters and the commit path acquire the
+// pool lock (leg "lockorder", lockorder_test.go).
+func runConcMode(c ConcCase, x *h.Ctx, raceMode bool, sched []int) {
 	envUse.Lock()
 	defer envUse.Unlock()
 	e := getEnv(5)
@@ -201,11 +203,24 @@ func runConcMode(c ConcCase, x *h.Ctx, raceMode bool) {
 	var wg sync.WaitGroup
 	var done int32
 	start := make(chan struct{})
+	var gs *gateSched
+	if sched != nil {
+		gs = newGateSched(sched)
+		defer gs.abandon()
+	}
 	for w := range work {
 		results[w] = make([]error, len(work[w]))
 		wg.Add(1)
+		var th *gThread
+		if gs != nil {
+			th = gs.thread(fmt.Sprintf("S%d", w))
+		}
 		go func(w int) {
 			defer wg.Done()
+			if th != nil {
+				gs.enter(th)
+				defer gs.leave(th)
+			}
 			<-start
 			for i, s := range work[w] {
 				if s.admin {
@@ -219,7 +234,7 @@ func runConcMode(c ConcCase, x *h.Ctx, raceMode bool) {
 		}(w)
 	}
 	var qwg sync.WaitGroup
-	if c.Query {
+	if c.Query && gs == nil {
 		qwg.Add(1)
 		go func() {
 			defer qwg.Done()
@@ -315,14 +330,32 @@ func runConcMode(c ConcCase, x *h.Ctx, raceMode bool) {
 	close(start)
 	workersDone := make(chan struct{})
 	go func() { wg.Wait(); close(workersDone) }()
-	running := true
-	for i := 0; running && !stop && i < 10000; i++ {
-		select {
-		case <-workersDone:
-			running = false
-		default:
+	commitPath := func(maxSteps int) {
+		running := true
+		for i := 0; running && !stop && i < maxSteps; i++ {
+			select {
+			case <-workersDone:
+				running = false
+			default:
+			}
+			stepOnce(c.ReapN[i%len(c.ReapN)])
 		}
-		stepOnce(c.ReapN[i%len(c.ReapN)])
+	}
+	if gs == nil {
+		commitPath(10000)
+	} else {
+		k := gs.thread("K") // last: a schedule of zeros lets the submitters go first
+		go func() {
+			gs.enter(k)
+			defer gs.leave(k)
+			commitPath(200)
+		}()
+		if !gs.run() {
+			x.Label("inconclusive:a-thread-neither-reached-the-pool-lock-nor-finished")
+			return
+		}
+		x.Label("lock-order-owned")
+		x.Labelf("submitter-parked-across-a-commit:%s", bucket(gs.interleaved))
 	}
 	wg.Wait()
 	atomic.StoreInt32(&done, 1)
@@ -428,7 +461,13 @@ func runConcMode(c ConcCase, x *h.Ctx, raceMode bool) {
 	} else {
 		x.Label("race-detector:off")
 	}
-	if blocksWithTxs > 1 && len(work) >= 2 {
+	if gs != nil {
+		// non-trivial: some submitter waited for the pool lock while the commit path brought the pool
+		// up to a new state, and a block with transactions was committed
+		if gs.interleaved >= 1 && blocksWithTxs >= 1 {
+			x.NonTrivial()
+		}
+	} else if blocksWithTxs > 1 && len(work) >= 2 {
 		x.NonTrivial()
 	}
 }
